@@ -479,3 +479,328 @@ Proof.
   split; [intros n s; apply (CA_connect_next n s s (CA_refl s))|].
   intros s; apply (CA_conn_disconnect s s (CA_refl s)).
 Qed.
+
+(* ------------------------------------------------------------------ who registers _handle_compress_result *)
+(* no new registration of the handler that waits for the answer to <compress/> *)
+Definition NH (s s' : state) : Prop := h_has HCompressResult s' = true -> h_has HCompressResult s = true.
+Lemma NH_refl : forall s, NH s s. Proof. unfold NH; auto. Qed.
+Lemma NH_trans : forall a b c, NH a b -> NH b c -> NH a c. Proof. unfold NH; auto. Qed.
+#[export] Hint Resolve NH_refl : nhdb.
+#[export] Hint Extern 1 (_ <> _) => discriminate : nhdb.
+Lemma NH_h_add : forall k s0 s, k <> HCompressResult -> NH s0 s -> NH s0 (h_add k s).
+Proof.
+  intros k s0 s Hk H. unfold h_add. destruct (h_has k s); [exact H|].
+  unfold NH, h_has in *. sproj. rewrite existsb_app. cbn [existsb fst]. intros X.
+  apply orb_true_iff in X. destruct X as [X|X]; [apply H; exact X|].
+  rewrite orb_false_r in X. exfalso. apply Hk. destruct k; cbn in X; congruence.
+Qed.
+Lemma NH_h_del : forall k s0 s, NH s0 s -> NH s0 (h_del k s).
+Proof.
+  intros k s0 s H. unfold NH, h_del, h_has in *. sproj. intros X. apply H.
+  apply existsb_exists in X. destruct X as (x & Hin & Hx). apply filter_In in Hin. apply existsb_exists. exists x. tauto.
+Qed.
+Lemma NH_enable_all : forall s0 s, NH s0 s -> NH s0 (set_handlers (map (fun x => (fst x, true)) (handlers s)) s).
+Proof.
+  intros s0 s H. unfold NH, h_has in *. sproj. intros X. apply H.
+  apply existsb_exists in X. destruct X as (x & Hin & Hx). apply in_map_iff in Hin. destruct Hin as (y & <- & Hy).
+  apply existsb_exists. exists y. auto.
+Qed.
+#[export] Hint Resolve NH_h_add NH_h_del NH_enable_all : nhdb.
+Lemma NH_set_f_tls_disabled : forall v s0 s, NH s0 s -> NH s0 (set_f_tls_disabled v s).
+Proof. intros v s0 s H; unfold NH in *; destruct s; exact H. Qed.
+#[export] Hint Resolve NH_set_f_tls_disabled : nhdb.
+Lemma NH_set_f_tls_mandatory : forall v s0 s, NH s0 s -> NH s0 (set_f_tls_mandatory v s).
+Proof. intros v s0 s H; unfold NH in *; destruct s; exact H. Qed.
+#[export] Hint Resolve NH_set_f_tls_mandatory : nhdb.
+Lemma NH_set_f_legacy_ssl : forall v s0 s, NH s0 s -> NH s0 (set_f_legacy_ssl v s).
+Proof. intros v s0 s H; unfold NH in *; destruct s; exact H. Qed.
+#[export] Hint Resolve NH_set_f_legacy_ssl : nhdb.
+Lemma NH_set_f_tls_trust : forall v s0 s, NH s0 s -> NH s0 (set_f_tls_trust v s).
+Proof. intros v s0 s H; unfold NH in *; destruct s; exact H. Qed.
+#[export] Hint Resolve NH_set_f_tls_trust : nhdb.
+Lemma NH_set_f_legacy_auth : forall v s0 s, NH s0 s -> NH s0 (set_f_legacy_auth v s).
+Proof. intros v s0 s H; unfold NH in *; destruct s; exact H. Qed.
+#[export] Hint Resolve NH_set_f_legacy_auth : nhdb.
+Lemma NH_set_f_sm_disable : forall v s0 s, NH s0 s -> NH s0 (set_f_sm_disable v s).
+Proof. intros v s0 s H; unfold NH in *; destruct s; exact H. Qed.
+#[export] Hint Resolve NH_set_f_sm_disable : nhdb.
+Lemma NH_set_f_comp_allowed : forall v s0 s, NH s0 s -> NH s0 (set_f_comp_allowed v s).
+Proof. intros v s0 s H; unfold NH in *; destruct s; exact H. Qed.
+#[export] Hint Resolve NH_set_f_comp_allowed : nhdb.
+Lemma NH_set_f_comp_dont_reset : forall v s0 s, NH s0 s -> NH s0 (set_f_comp_dont_reset v s).
+Proof. intros v s0 s H; unfold NH in *; destruct s; exact H. Qed.
+#[export] Hint Resolve NH_set_f_comp_dont_reset : nhdb.
+Lemma NH_set_jid_set : forall v s0 s, NH s0 s -> NH s0 (set_jid_set v s).
+Proof. intros v s0 s H; unfold NH in *; destruct s; exact H. Qed.
+#[export] Hint Resolve NH_set_jid_set : nhdb.
+Lemma NH_set_jid_node : forall v s0 s, NH s0 s -> NH s0 (set_jid_node v s).
+Proof. intros v s0 s H; unfold NH in *; destruct s; exact H. Qed.
+#[export] Hint Resolve NH_set_jid_node : nhdb.
+Lemma NH_set_jid_res : forall v s0 s, NH s0 s -> NH s0 (set_jid_res v s).
+Proof. intros v s0 s H; unfold NH in *; destruct s; exact H. Qed.
+#[export] Hint Resolve NH_set_jid_res : nhdb.
+Lemma NH_set_pass_set : forall v s0 s, NH s0 s -> NH s0 (set_pass_set v s).
+Proof. intros v s0 s H; unfold NH in *; destruct s; exact H. Qed.
+#[export] Hint Resolve NH_set_pass_set : nhdb.
+Lemma NH_set_cert_set : forall v s0 s, NH s0 s -> NH s0 (set_cert_set v s).
+Proof. intros v s0 s H; unfold NH in *; destruct s; exact H. Qed.
+#[export] Hint Resolve NH_set_cert_set : nhdb.
+Lemma NH_set_is_raw : forall v s0 s, NH s0 s -> NH s0 (set_is_raw v s).
+Proof. intros v s0 s H; unfold NH in *; destruct s; exact H. Qed.
+#[export] Hint Resolve NH_set_is_raw : nhdb.
+Lemma NH_set_typ : forall v s0 s, NH s0 s -> NH s0 (set_typ v s).
+Proof. intros v s0 s H; unfold NH in *; destruct s; exact H. Qed.
+#[export] Hint Resolve NH_set_typ : nhdb.
+Lemma NH_set_user_handler : forall v s0 s, NH s0 s -> NH s0 (set_user_handler v s).
+Proof. intros v s0 s H; unfold NH in *; destruct s; exact H. Qed.
+#[export] Hint Resolve NH_set_user_handler : nhdb.
+Lemma NH_set_user_timed : forall v s0 s, NH s0 s -> NH s0 (set_user_timed v s).
+Proof. intros v s0 s H; unfold NH in *; destruct s; exact H. Qed.
+#[export] Hint Resolve NH_set_user_timed : nhdb.
+Lemma NH_set_tlsnew_ok : forall v s0 s, NH s0 s -> NH s0 (set_tlsnew_ok v s).
+Proof. intros v s0 s H; unfold NH in *; destruct s; exact H. Qed.
+#[export] Hint Resolve NH_set_tlsnew_ok : nhdb.
+Lemma NH_set_cb_avail : forall v s0 s, NH s0 s -> NH s0 (set_cb_avail v s).
+Proof. intros v s0 s H; unfold NH in *; destruct s; exact H. Qed.
+#[export] Hint Resolve NH_set_cb_avail : nhdb.
+Lemma NH_set_tls_verdicts : forall v s0 s, NH s0 s -> NH s0 (set_tls_verdicts v s).
+Proof. intros v s0 s H; unfold NH in *; destruct s; exact H. Qed.
+#[export] Hint Resolve NH_set_tls_verdicts : nhdb.
+Lemma NH_set_next_cands : forall v s0 s, NH s0 s -> NH s0 (set_next_cands v s).
+Proof. intros v s0 s H; unfold NH in *; destruct s; exact H. Qed.
+#[export] Hint Resolve NH_set_next_cands : nhdb.
+Lemma NH_set_cands : forall v s0 s, NH s0 s -> NH s0 (set_cands v s).
+Proof. intros v s0 s H; unfold NH in *; destruct s; exact H. Qed.
+#[export] Hint Resolve NH_set_cands : nhdb.
+Lemma NH_set_cur_ep : forall v s0 s, NH s0 s -> NH s0 (set_cur_ep v s).
+Proof. intros v s0 s H; unfold NH in *; destruct s; exact H. Qed.
+#[export] Hint Resolve NH_set_cur_ep : nhdb.
+Lemma NH_set_st : forall v s0 s, NH s0 s -> NH s0 (set_st v s).
+Proof. intros v s0 s H; unfold NH in *; destruct s; exact H. Qed.
+#[export] Hint Resolve NH_set_st : nhdb.
+Lemma NH_set_stamp : forall v s0 s, NH s0 s -> NH s0 (set_stamp v s).
+Proof. intros v s0 s H; unfold NH in *; destruct s; exact H. Qed.
+#[export] Hint Resolve NH_set_stamp : nhdb.
+Lemma NH_set_err : forall v s0 s, NH s0 s -> NH s0 (set_err v s).
+Proof. intros v s0 s H; unfold NH in *; destruct s; exact H. Qed.
+#[export] Hint Resolve NH_set_err : nhdb.
+Lemma NH_set_stream_error : forall v s0 s, NH s0 s -> NH s0 (set_stream_error v s).
+Proof. intros v s0 s H; unfold NH in *; destruct s; exact H. Qed.
+#[export] Hint Resolve NH_set_stream_error : nhdb.
+Lemma NH_set_secured : forall v s0 s, NH s0 s -> NH s0 (set_secured v s).
+Proof. intros v s0 s H; unfold NH in *; destruct s; exact H. Qed.
+#[export] Hint Resolve NH_set_secured : nhdb.
+Lemma NH_set_tls_present : forall v s0 s, NH s0 s -> NH s0 (set_tls_present v s).
+Proof. intros v s0 s H; unfold NH in *; destruct s; exact H. Qed.
+#[export] Hint Resolve NH_set_tls_present : nhdb.
+Lemma NH_set_tls_failed : forall v s0 s, NH s0 s -> NH s0 (set_tls_failed v s).
+Proof. intros v s0 s H; unfold NH in *; destruct s; exact H. Qed.
+#[export] Hint Resolve NH_set_tls_failed : nhdb.
+Lemma NH_set_tls_support : forall v s0 s, NH s0 s -> NH s0 (set_tls_support v s).
+Proof. intros v s0 s H; unfold NH in *; destruct s; exact H. Qed.
+#[export] Hint Resolve NH_set_tls_support : nhdb.
+Lemma NH_set_sasl : forall v s0 s, NH s0 s -> NH s0 (set_sasl v s).
+Proof. intros v s0 s H; unfold NH in *; destruct s; exact H. Qed.
+#[export] Hint Resolve NH_set_sasl : nhdb.
+Lemma NH_set_bind_required : forall v s0 s, NH s0 s -> NH s0 (set_bind_required v s).
+Proof. intros v s0 s H; unfold NH in *; destruct s; exact H. Qed.
+#[export] Hint Resolve NH_set_bind_required : nhdb.
+Lemma NH_set_session_required : forall v s0 s, NH s0 s -> NH s0 (set_session_required v s).
+Proof. intros v s0 s H; unfold NH in *; destruct s; exact H. Qed.
+#[export] Hint Resolve NH_set_session_required : nhdb.
+Lemma NH_set_comp_supported : forall v s0 s, NH s0 s -> NH s0 (set_comp_supported v s).
+Proof. intros v s0 s H; unfold NH in *; destruct s; exact H. Qed.
+#[export] Hint Resolve NH_set_comp_supported : nhdb.
+Lemma NH_set_sm_alloc : forall v s0 s, NH s0 s -> NH s0 (set_sm_alloc v s).
+Proof. intros v s0 s H; unfold NH in *; destruct s; exact H. Qed.
+#[export] Hint Resolve NH_set_sm_alloc : nhdb.
+Lemma NH_set_sm_support : forall v s0 s, NH s0 s -> NH s0 (set_sm_support v s).
+Proof. intros v s0 s H; unfold NH in *; destruct s; exact H. Qed.
+#[export] Hint Resolve NH_set_sm_support : nhdb.
+Lemma NH_set_sm_enabled : forall v s0 s, NH s0 s -> NH s0 (set_sm_enabled v s).
+Proof. intros v s0 s H; unfold NH in *; destruct s; exact H. Qed.
+#[export] Hint Resolve NH_set_sm_enabled : nhdb.
+Lemma NH_set_sm_can_resume : forall v s0 s, NH s0 s -> NH s0 (set_sm_can_resume v s).
+Proof. intros v s0 s H; unfold NH in *; destruct s; exact H. Qed.
+#[export] Hint Resolve NH_set_sm_can_resume : nhdb.
+Lemma NH_set_sm_resume : forall v s0 s, NH s0 s -> NH s0 (set_sm_resume v s).
+Proof. intros v s0 s H; unfold NH in *; destruct s; exact H. Qed.
+#[export] Hint Resolve NH_set_sm_resume : nhdb.
+Lemma NH_set_sm_dont_request : forall v s0 s, NH s0 s -> NH s0 (set_sm_dont_request v s).
+Proof. intros v s0 s H; unfold NH in *; destruct s; exact H. Qed.
+#[export] Hint Resolve NH_set_sm_dont_request : nhdb.
+Lemma NH_set_sm_has_previd : forall v s0 s, NH s0 s -> NH s0 (set_sm_has_previd v s).
+Proof. intros v s0 s H; unfold NH in *; destruct s; exact H. Qed.
+#[export] Hint Resolve NH_set_sm_has_previd : nhdb.
+Lemma NH_set_sm_has_id : forall v s0 s, NH s0 s -> NH s0 (set_sm_has_id v s).
+Proof. intros v s0 s H; unfold NH in *; destruct s; exact H. Qed.
+#[export] Hint Resolve NH_set_sm_has_id : nhdb.
+Lemma NH_set_sm_parked : forall v s0 s, NH s0 s -> NH s0 (set_sm_parked v s).
+Proof. intros v s0 s H; unfold NH in *; destruct s; exact H. Qed.
+#[export] Hint Resolve NH_set_sm_parked : nhdb.
+Lemma NH_set_sm_r_sent : forall v s0 s, NH s0 s -> NH s0 (set_sm_r_sent v s).
+Proof. intros v s0 s H; unfold NH in *; destruct s; exact H. Qed.
+#[export] Hint Resolve NH_set_sm_r_sent : nhdb.
+Lemma NH_set_sm_bind_saved : forall v s0 s, NH s0 s -> NH s0 (set_sm_bind_saved v s).
+Proof. intros v s0 s H; unfold NH in *; destruct s; exact H. Qed.
+#[export] Hint Resolve NH_set_sm_bind_saved : nhdb.
+Lemma NH_set_bound_jid : forall v s0 s, NH s0 s -> NH s0 (set_bound_jid v s).
+Proof. intros v s0 s H; unfold NH in *; destruct s; exact H. Qed.
+#[export] Hint Resolve NH_set_bound_jid : nhdb.
+Lemma NH_set_stream_id : forall v s0 s, NH s0 s -> NH s0 (set_stream_id v s).
+Proof. intros v s0 s H; unfold NH in *; destruct s; exact H. Qed.
+#[export] Hint Resolve NH_set_stream_id : nhdb.
+Lemma NH_set_neg_done : forall v s0 s, NH s0 s -> NH s0 (set_neg_done v s).
+Proof. intros v s0 s H; unfold NH in *; destruct s; exact H. Qed.
+#[export] Hint Resolve NH_set_neg_done : nhdb.
+Lemma NH_set_reset_parser : forall v s0 s, NH s0 s -> NH s0 (set_reset_parser v s).
+Proof. intros v s0 s H; unfold NH in *; destruct s; exact H. Qed.
+#[export] Hint Resolve NH_set_reset_parser : nhdb.
+Lemma NH_set_oh : forall v s0 s, NH s0 s -> NH s0 (set_oh v s).
+Proof. intros v s0 s H; unfold NH in *; destruct s; exact H. Qed.
+#[export] Hint Resolve NH_set_oh : nhdb.
+Lemma NH_set_ps : forall v s0 s, NH s0 s -> NH s0 (set_ps v s).
+Proof. intros v s0 s H; unfold NH in *; destruct s; exact H. Qed.
+#[export] Hint Resolve NH_set_ps : nhdb.
+Lemma NH_set_idhandlers : forall v s0 s, NH s0 s -> NH s0 (set_idhandlers v s).
+Proof. intros v s0 s H; unfold NH in *; destruct s; exact H. Qed.
+#[export] Hint Resolve NH_set_idhandlers : nhdb.
+Lemma NH_set_timed : forall v s0 s, NH s0 s -> NH s0 (set_timed v s).
+Proof. intros v s0 s H; unfold NH in *; destruct s; exact H. Qed.
+#[export] Hint Resolve NH_set_timed : nhdb.
+Lemma NH_set_sendq : forall v s0 s, NH s0 s -> NH s0 (set_sendq v s).
+Proof. intros v s0 s H; unfold NH in *; destruct s; exact H. Qed.
+#[export] Hint Resolve NH_set_sendq : nhdb.
+Lemma NH_set_rxq : forall v s0 s, NH s0 s -> NH s0 (set_rxq v s).
+Proof. intros v s0 s H; unfold NH in *; destruct s; exact H. Qed.
+#[export] Hint Resolve NH_set_rxq : nhdb.
+Lemma NH_set_smq : forall v s0 s, NH s0 s -> NH s0 (set_smq v s).
+Proof. intros v s0 s H; unfold NH in *; destruct s; exact H. Qed.
+#[export] Hint Resolve NH_set_smq : nhdb.
+Lemma NH_set_sm_sent : forall v s0 s, NH s0 s -> NH s0 (set_sm_sent v s).
+Proof. intros v s0 s H; unfold NH in *; destruct s; exact H. Qed.
+#[export] Hint Resolve NH_set_sm_sent : nhdb.
+Lemma NH_set_scram_serial : forall v s0 s, NH s0 s -> NH s0 (set_scram_serial v s).
+Proof. intros v s0 s H; unfold NH in *; destruct s; exact H. Qed.
+#[export] Hint Resolve NH_set_scram_serial : nhdb.
+Lemma NH_set_crashed : forall v s0 s, NH s0 s -> NH s0 (set_crashed v s).
+Proof. intros v s0 s H; unfold NH in *; destruct s; exact H. Qed.
+#[export] Hint Resolve NH_set_crashed : nhdb.
+Lemma NH_set_gh : forall v s0 s, NH s0 s -> NH s0 (set_gh v s).
+Proof. intros v s0 s H; unfold NH in *; destruct s; exact H. Qed.
+#[export] Hint Resolve NH_set_gh : nhdb.
+
+Ltac nh := intros; cases; eauto 30 with nhdb.
+Ltac nhR := intros; name_result; cases; leaf; eauto 30 with nhdb.
+
+Lemma NH_upg : forall f s0 s, NH s0 s -> NH s0 (upg f s).
+Proof. intros; unfold upg; eauto with nhdb. Qed.
+#[export] Hint Resolve NH_upg : nhdb.
+Lemma NH_q_append : forall w u o s0 s, NH s0 s -> NH s0 (q_append w u o s).
+Proof. unfold q_append; nh. Qed.
+#[export] Hint Resolve NH_q_append : nhdb.
+Lemma NH_send_gated : forall w u o s0 s, NH s0 s -> NH s0 (send_gated w u o s).
+Proof. unfold send_gated; nh. Qed.
+Lemma NH_send_raw_m : forall w u o s0 s, NH s0 s -> NH s0 (send_raw_m w u o s).
+Proof. unfold send_raw_m; nh. Qed.
+#[export] Hint Resolve NH_send_gated NH_send_raw_m : nhdb.
+Lemma NH_timed_add : forall k n s0 s, NH s0 s -> NH s0 (timed_add k n s).
+Proof. unfold timed_add; nh. Qed.
+Lemma NH_timed_del : forall k s0 s, NH s0 s -> NH s0 (timed_del k s).
+Proof. unfold timed_del; nh. Qed.
+Lemma NH_timed_reset_all : forall n s0 s, NH s0 s -> NH s0 (timed_reset_all n s).
+Proof. unfold timed_reset_all; nh. Qed.
+Lemma NH_timed_set_stamp : forall k n s0 s, NH s0 s -> NH s0 (timed_set_stamp k n s).
+Proof. unfold timed_set_stamp; nh. Qed.
+Lemma NH_id_add : forall k s0 s, NH s0 s -> NH s0 (id_add k s).
+Proof. unfold id_add; nh. Qed.
+Lemma NH_id_del : forall k s0 s, NH s0 s -> NH s0 (id_del k s).
+Proof. unfold id_del; nh. Qed.
+#[export] Hint Resolve NH_timed_add NH_timed_del NH_timed_reset_all NH_timed_set_stamp NH_id_add NH_id_del : nhdb.
+Lemma NH_reset_sm_for_reconnect : forall s0 s, NH s0 s -> NH s0 (reset_sm_for_reconnect s).
+Proof. unfold reset_sm_for_reconnect; nh. Qed.
+Lemma NH_sm_queue_cleanup : forall h s0 s, NH s0 s -> NH s0 (sm_queue_cleanup h s).
+Proof. unfold sm_queue_cleanup; nh. Qed.
+#[export] Hint Resolve NH_reset_sm_for_reconnect NH_sm_queue_cleanup : nhdb.
+Lemma NH_sm_queue_resend : forall s0 s, NH s0 s -> NH s0 (sm_queue_resend s).
+Proof. intros; unfold sm_queue_resend. apply fold_left_inv; eauto with nhdb. Qed.
+#[export] Hint Resolve NH_sm_queue_resend : nhdb.
+Lemma NH_conn_disconnect : forall s0 s, NH s0 s -> NH s0 (fst (conn_disconnect s)).
+Proof. unfold conn_disconnect, ret; nhR. Qed.
+#[export] Hint Resolve NH_conn_disconnect : nhdb.
+Lemma NH_xmpp_disconnect : forall n s0 s, NH s0 s -> NH s0 (xmpp_disconnect n s).
+Proof. unfold xmpp_disconnect; nh. Qed.
+Lemma NH_prepare_reset : forall h s0 s, NH s0 s -> NH s0 (prepare_reset h s).
+Proof. unfold prepare_reset; nh. Qed.
+Lemma NH_conn_open_stream : forall s0 s, NH s0 s -> NH s0 (conn_open_stream s).
+Proof. unfold conn_open_stream; nh. Qed.
+#[export] Hint Resolve NH_xmpp_disconnect NH_prepare_reset NH_conn_open_stream : nhdb.
+Lemma NH_conn_tls_start : forall s0 s, NH s0 s -> NH s0 (fst (fst (conn_tls_start s))).
+Proof. unfold conn_tls_start; nhR. Qed.
+Lemma NH_stream_negotiation_success : forall s0 s, NH s0 s -> NH s0 (fst (stream_negotiation_success s)).
+Proof. unfold stream_negotiation_success, ret; nhR. Qed.
+#[export] Hint Resolve NH_conn_tls_start NH_stream_negotiation_success : nhdb.
+Lemma NH_do_bind : forall n b s0 s, NH s0 s -> NH s0 (fst (do_bind n b s)).
+Proof. unfold do_bind, ret; nhR. Qed.
+Lemma NH_session_start : forall n s0 s, NH s0 s -> NH s0 (session_start n s).
+Proof. unfold session_start; nh. Qed.
+Lemma NH_sm_enable : forall s0 s, NH s0 s -> NH s0 (sm_enable s).
+Proof. unfold sm_enable; nh. Qed.
+Lemma NH_auth_legacy : forall n s0 s, NH s0 s -> NH s0 (auth_legacy n s).
+Proof. unfold auth_legacy; nh. Qed.
+#[export] Hint Resolve NH_do_bind NH_session_start NH_sm_enable NH_auth_legacy : nhdb.
+Lemma NH_auth : forall fuel n s0 s, NH s0 s -> NH s0 (fst (auth fuel n s)).
+Proof. induction fuel; intros; name_result; cbn [auth]; unfold ret; cases; leaf; eauto 30 with nhdb. Qed.
+#[export] Hint Resolve NH_auth : nhdb.
+Lemma NH_sasl_result : forall n e s0 s, NH s0 s -> NH s0 (fst (sasl_result n e s)).
+Proof. unfold sasl_result, ret; nhR. Qed.
+Lemma NH_features_sasl : forall n e s0 s, NH s0 s -> NH s0 (fst (features_sasl n e s)).
+Proof. unfold features_sasl, ret; nhR. Qed.
+#[export] Hint Resolve NH_sasl_result NH_features_sasl : nhdb.
+
+
+Lemma NH_call_handler_other : forall k n e s0 s,
+  k <> HFeaturesCompress -> NH s0 s -> NH s0 (fst (fst (call_handler k n e s))).
+Proof.
+  intros k; destruct k; intros; try congruence; name_result; unfold call_handler, ret; cases; leaf; eauto 30 with nhdb.
+Qed.
+Lemma NH_call_id_handler : forall k n e s0 s, NH s0 s -> NH s0 (fst (call_id_handler k n e s)).
+Proof. intros k; destruct k; intros; name_result; unfold call_id_handler, ret; cases; leaf; eauto 30 with nhdb. Qed.
+Lemma NH_open_handler : forall n s0 s, NH s0 s -> NH s0 (fst (open_handler n s)).
+Proof. unfold open_handler, ret; nhR. Qed.
+#[export] Hint Resolve NH_call_id_handler NH_open_handler : nhdb.
+Lemma NH_stream_start : forall n a b s0 s, NH s0 s -> NH s0 (fst (stream_start n a b s)).
+Proof. unfold stream_start; nhR. Qed.
+Lemma NH_stream_end : forall s0 s, NH s0 s -> NH s0 (fst (stream_end s)).
+Proof. unfold stream_end; nhR. Qed.
+Lemma NH_call_timed : forall k n s0 s, NH s0 s -> NH s0 (fst (fst (call_timed k n s))).
+Proof. intros k; destruct k; intros; name_result; unfold call_timed; cases; leaf; eauto 30 with nhdb. Qed.
+#[export] Hint Resolve NH_stream_start NH_stream_end NH_call_timed : nhdb.
+Lemma NH_visit_timed : forall n s0 r k, NH s0 (fst r) -> NH s0 (fst (visit_timed n r k)).
+Proof.
+  intros n s0 [s o] k H. cbn [fst] in H. name_result. unfold visit_timed. cases; leaf; eauto 30 with nhdb.
+Qed.
+Lemma NH_fire_timed : forall n s0 s, NH s0 s -> NH s0 (fst (fire_timed n s)).
+Proof.
+  intros n s0 s H. unfold fire_timed, ret. destruct (st s); cbn [fst]; auto.
+  apply (fold_left_inv (fun r => NH s0 (fst r))); [intros; apply NH_visit_timed; auto|].
+  cbn [fst]. eauto with nhdb.
+Qed.
+
+(* the handler is registered by _handle_features_compress and by nothing else that runs in an iteration *)
+Lemma compress_result_registration :
+  (forall k n e s, k <> HFeaturesCompress ->
+     h_has HCompressResult (fst (fst (call_handler k n e s))) = true -> h_has HCompressResult s = true) /\
+  (forall k n e s, h_has HCompressResult (fst (call_id_handler k n e s)) = true -> h_has HCompressResult s = true) /\
+  (forall n s, h_has HCompressResult (fst (open_handler n s)) = true -> h_has HCompressResult s = true) /\
+  (forall n a b s, h_has HCompressResult (fst (stream_start n a b s)) = true -> h_has HCompressResult s = true) /\
+  (forall s, h_has HCompressResult (fst (stream_end s)) = true -> h_has HCompressResult s = true) /\
+  (forall n s, h_has HCompressResult (fst (fire_timed n s)) = true -> h_has HCompressResult s = true).
+Proof.
+  split; [intros k n e s Hk; apply (NH_call_handler_other k n e s s Hk (NH_refl s))|].
+  split; [intros k n e s; apply (NH_call_id_handler k n e s s (NH_refl s))|].
+  split; [intros n s; apply (NH_open_handler n s s (NH_refl s))|].
+  split; [intros n a b s; apply (NH_stream_start n a b s s (NH_refl s))|].
+  split; [intros s; apply (NH_stream_end s s (NH_refl s))|].
+  intros n s; apply (NH_fire_timed n s s (NH_refl s)).
+Qed.
